@@ -5,7 +5,9 @@
 From Coq Require Import Permutation Sorted.
 From TT Require Import Lib.Base Lib.Sort Model.Suites.
 
-Record input := { tree : node; keep : list id; unpack : bool }.
+(* names: the table of test ids as UTF-8 bytes, test number i has id (nth i names);
+   file: the bytes of the file given to --load-list *)
+Record input := { tree : node; keep : list id; unpack : bool; names : list bytes; file : bytes }.
 
 (* one member of the suite returned by sorted_tests: is it a test case, and the
    ids iterate_tests yields below it *)
@@ -15,7 +17,10 @@ Record obs := {
   o_iter   : list id;                  (* ids yielded by iterate_tests(tree) *)
   o_filter : list (list nat * id);     (* leaf paths of filter_by_ids(tree, keep) *)
   o_sorted : res (list member) exn;    (* members of sorted_tests(tree, unpack), or what it raised *)
-  o_list   : list id                   (* run.list_test(tree)[0] *)
+  o_list   : list id;                  (* run.list_test(tree)[0] *)
+  o_cli_list : list id;                (* lines printed by `testtools.run --list`, as test numbers *)
+  o_cli_run  : list id;                (* tests executed by `testtools.run --load-list file`, in order *)
+  o_cli_both : list id                 (* lines printed by `testtools.run --list --load-list file` *)
 }.
 
 (* ---- the specification, written independently of the model's algorithms ---- *)
@@ -65,11 +70,67 @@ Definition sorted_okb (i : input) (o : res (list member) exn) : bool :=
 
 Definition path_eqb : list nat * id -> list nat * id -> bool := pair_eqb (list_eqb Nat.eqb) Nat.eqb.
 
+(* ---- the list file: one test id per line ----
+   The lines of a file are the pieces between line feeds.  A line lists the id
+   nm when it is nm, possibly surrounded by ASCII whitespace (so a CR before the
+   LF, indentation and trailing blanks do not matter; blank lines list nothing).
+   Whitespace INSIDE a line separates nothing: a line is one id. *)
+Definition blank (b : nat) : bool := existsb (Nat.eqb b) [9; 10; 11; 12; 13; 32].
+
+Fixpoint split_lf (f : bytes) : list bytes :=
+  match f with
+  | [] => [[]]
+  | b :: r => if Nat.eqb b 10 then [] :: split_lf r
+              else match split_lf r with
+                   | l :: ls => (b :: l) :: ls
+                   | [] => [[b]]
+                   end
+  end.
+Fixpoint join_lf (ls : list bytes) : bytes :=
+  match ls with
+  | [] => []
+  | l :: r => match r with [] => l | _ => l ++ 10 :: join_lf r end
+  end.
+
+Fixpoint skip_blank (l : bytes) : bytes :=
+  match l with
+  | b :: r => if blank b then skip_blank r else l
+  | [] => []
+  end.
+Fixpoint after_prefix (p l : bytes) : option bytes :=
+  match p, l with
+  | [], _ => Some l
+  | a :: p', b :: l' => if Nat.eqb a b then after_prefix p' l' else None
+  | _ :: _, [] => None
+  end.
+Definition line_lists (nm line : bytes) : bool :=
+  match after_prefix nm (skip_blank line) with
+  | Some rest => forallb blank rest
+  | None => false
+  end.
+Definition file_lists (f : bytes) (nm : bytes) : bool := existsb (line_lists nm) (split_lf f).
+Definition listedb (nms : list bytes) (f : bytes) (i : id) : bool :=
+  match nth_error nms i with
+  | Some nm => file_lists f nm
+  | None => false
+  end.
+
+(* ids the statement speaks about: non-empty, no line feed inside, no ASCII
+   whitespace at either end (such an id cannot be written on a line of its own) *)
+Definition wf_nameb (nm : bytes) : bool :=
+  match nm with [] => false | b :: _ => negb (blank b) end
+  && match rev nm with [] => false | b :: _ => negb (blank b) end
+  && forallb (fun b => negb (Nat.eqb b 10)) nm.
+Definition wf (i : input) : Prop := forallb wf_nameb (names i) = true.
+
 Definition spec_okb (i : input) (o : obs) : bool :=
   list_eqb Nat.eqb (o_iter o) (leaves (tree i))
   && list_eqb path_eqb (o_filter o) (filter (fun p => mem (snd p) (keep i)) (paths (tree i)))
   && sorted_okb i (o_sorted o)
-  && list_eqb Nat.eqb (o_list o) (leaves (tree i)).
+  && list_eqb Nat.eqb (o_list o) (leaves (tree i))
+  && list_eqb Nat.eqb (o_cli_list o) (leaves (tree i))
+  && list_eqb Nat.eqb (o_cli_run o) (filter (listedb (names i) (file i)) (leaves (tree i)))
+  && list_eqb Nat.eqb (o_cli_both o) (filter (listedb (names i) (file i)) (leaves (tree i))).
 
 (* ---- readable form of the sorted_tests clause ---- *)
 Definition Sorted_spec (i : input) (o : res (list member) exn) : Prop :=
@@ -82,11 +143,20 @@ Definition Sorted_spec (i : input) (o : res (list member) exn) : Prop :=
                              /\ if t_sortable t then Permutation (t_ids t) (snd m) else t_ids t = snd m)
                  arrangement ms.
 
+(* readable meaning of [file_lists] (theorem C19_listed): some line of the file
+   is the id surrounded by nothing but ASCII whitespace *)
+Definition Lists (f : bytes) (nm : bytes) : Prop :=
+  exists line a b, In line (split_lf f) /\ line = a ++ nm ++ b
+                   /\ forallb blank a = true /\ forallb blank b = true.
+
 Definition Spec (i : input) (o : obs) : Prop :=
   o_iter o = leaves (tree i)
   /\ o_filter o = filter (fun p => mem (snd p) (keep i)) (paths (tree i))
   /\ Sorted_spec i (o_sorted o)
-  /\ o_list o = leaves (tree i).
+  /\ o_list o = leaves (tree i)
+  /\ o_cli_list o = leaves (tree i)
+  /\ o_cli_run o = filter (listedb (names i) (file i)) (leaves (tree i))
+  /\ o_cli_both o = filter (listedb (names i) (file i)) (leaves (tree i)).
 
 (* no finding is delimited for C19 after the F8 repair *)
 Definition findings (i : input) : list nat := [].
